@@ -146,11 +146,7 @@ Definition atom_dom (g : row) (x : atom) : Prop :=
   match x with
   | APlain e => cond_dom (genv g) e
   | AExists _ c => conds_dom g c
-  | AIn _ over v a s =>
-      val_dom (genv g) v /\ conds_dom g (set_cond s) /\ (forall m, In m (members g) -> env_ok (menv g m) (EAttr a) = true) /\
-      (* known bad: `not (v in (...))` over a collection that holds a None *)
-      (over && a_null a && is_gen s = true ->
-       forall m, In m (filter (cond_holds params (set_cond s) g) (members g)) -> is_none (m (a_id a)) = false)
+  | AIn _ _ v a s => val_dom (genv g) v /\ conds_dom g (set_cond s) /\ (forall m, In m (members g) -> env_ok (menv g m) (EAttr a) = true)
   | ACount c e =>
       conds_dom g c /\ cond_dom (cenv params g None (PInt (Z.of_nat (length (filter (cond_holds params c g) (members g)))))) e
   end.
@@ -200,7 +196,7 @@ Proof.
     destruct (tr_conds d c0) as [cs|] eqn:F; [|discriminate]. inversion E; subst. cbn [xtruth].
     rewrite (sub_rows_sound g c0 cs Ty Dom F), nonempty_existsb. reflexivity.
   - (* in *)
-    apply andb_prop in Ty. destruct Ty as [Ty To]. apply andb_prop in Ty. destruct Ty as [Ha Tc]. destruct Dom as [[V1 [V2 V3]] [Dc [Da Dn]]].
+    apply andb_prop in Ty. destruct Ty as [Ty To]. apply andb_prop in Ty. destruct Ty as [Ha Tc]. destruct Dom as [[V1 [V2 V3]] [Dc Da]].
     destruct (tr_project d v) as [q|] eqn:Q; [|discriminate]. destruct (ty_of v) as [[t| |]|] eqn:Tv; try discriminate.
     destruct (vty_eqb t (a_ty a)) eqn:Et; [|discriminate]. apply vty_eqb_eq in Et.
     destruct (project_ref d Hd (genv g) v t Tv V1 V2 V3) as [q' [Q' [Qv _]]]. rewrite Q in Q'. inversion Q'; subst q'.
@@ -247,9 +243,7 @@ Proof.
         + apply (in3_pos_skip_none (ref_eval (genv g) v)). }
     destruct s as [c2|]; cbn [set_cond] in *.
     + destruct (tr_conds d c2) as [cs|] eqn:F; [|discriminate]. inversion E; subst c.
-      apply (Main cs (neg && negb over) F).
-      destruct neg; [|right; left; reflexivity]. destruct over; [|left; reflexivity]. cbn [andb negb].
-      destruct (a_null a) eqn:An; [|right; right; left; reflexivity]. right. right. right. apply Dn. reflexivity.
+      apply (Main cs true F). left. reflexivity.
     + inversion E; subst c. apply (Main [] true eq_refl). left. reflexivity.
   - (* count *)
     apply andb_prop in Ty. destruct Ty as [Tc Te]. destruct Dom as [Dc De].
